@@ -348,6 +348,15 @@ impl FunctionCompiler<'_> {
             return Ok(self.compile_builtin_global(builtin_global));
         }
 
+        // the data is written with the type of the initializer, but it's read back with the
+        // declared type of the global. if the initializer only fits into the declared type through
+        // an implicit conversion (`x : i64 : comptime some_i32()`, `x : ?i32 : 5`), the bytes
+        // wouldn't match, so the global gets compiled as an expression and cast instead.
+        if !self.tys[loc.wrap()][value].is_functionally_equivalent_to(&self.tys.sig(loc.wrap()), true)
+        {
+            return Err(UnfinishedComptimeErr);
+        }
+
         let bytes = self.expr_to_const_data(loc, value)?;
 
         let global = self.create_global_data(
@@ -501,12 +510,13 @@ impl FunctionCompiler<'_> {
         }
 
         let Ok(global_data) = self.compile_global_binding_data(loc) else {
-            // there was an unfinished comptime
+            // there was an unfinished comptime, or the initializer has to be cast
             let body = self.world_bodies.global_body(loc.to_naive());
+            let ty = *ty;
 
             // todo: could this cause issues?
             let old_loc = std::mem::replace(&mut self.loc, loc.wrap());
-            let res = self.compile_expr_with_args(body, no_load);
+            let res = self.compile_and_cast_with_args(body, no_load, ty);
             self.loc = old_loc;
 
             return res;
